@@ -351,6 +351,11 @@ pub fn check_history(ops: &[VecOp], cfg: &Cfg, poison: u64, stats: &mut Stats) -
         if o.partial_cmp_ab != Some(o.cmp_ab) {
             return Err(fail(step, "ordering: partial_cmp != Some(cmp)".into(), Some(o), &m));
         }
+        // the operators must say what cmp / == say
+        let want_ops = [!o.eq_ab, o.cmp_ab == Ordering::Less, o.cmp_ab != Ordering::Greater, o.cmp_ab == Ordering::Greater, o.cmp_ab != Ordering::Less];
+        if o.ops_ab != want_ops {
+            return Err(fail(step, format!("ordering: the operators [!=, <, <=, >, >=] give {:?} but cmp is {:?} and == is {}", o.ops_ab, o.cmp_ab, o.eq_ab), Some(o), &m));
+        }
         if (normalized(&m.a) && normalized(&m.b)) || m.a.len() == m.b.len() {
             let want = numeric_cmp(&m.a, &m.b);
             if o.cmp_ab != want {
